@@ -108,7 +108,30 @@ func Main(t *testing.T) {
 				params[kv[:i]] = n
 			}
 		}
+		for _, ps := range strings.Split(os.Getenv("VERIF_PRE"), ",") {
+			if ps == "" {
+				continue
+			}
+			pseed, _ := strconv.ParseUint(ps, 10, 64)
+			pr := Exec(t, p, simrt.NewTape(pseed, nil), tier, false)
+			if p.Plan != nil {
+				for _, pp := range p.Plan(pr, tier, 0, func(n int) int { return 0 }) {
+					Exec(t, p, simrt.NewTape(pseed, pp), tier, false)
+				}
+			}
+		}
 		r := Exec(t, p, simrt.NewTape(seed, params), tier, true)
+		if os.Getenv("VERIF_TWICE") != "" {
+			r2 := Exec(t, p, simrt.NewTape(seed, params), tier, true)
+			for i := 0; i < len(r.Trace) && i < len(r2.Trace); i++ {
+				if r.Trace[i] != r2.Trace[i] {
+					fmt.Printf("FIRST DIFFERENCE at event %d:\n  1: %s\n  2: %s\n", i, r.Trace[i], r2.Trace[i])
+					break
+				}
+			}
+			fmt.Printf("hashes %s %s lens %d %d\n", r.EventHash, r2.EventHash, len(r.Trace), len(r2.Trace))
+			os.Exit(0)
+		}
 		for _, l := range r.Trace {
 			fmt.Println(l)
 		}
